@@ -188,6 +188,9 @@ def _analysis(indict, disable_stiffness_check: bool = False, disable_analytic_so
 
     _init_logging(log_level)
 
+    # every call starts from the default options: options that this call does not specify must not be inherited from an earlier call in the same process
+    Config.reset()
+
     logging.info("Analysing input:")
     logging.info(json.dumps(indict, indent=4, sort_keys=True))
 
